@@ -19,7 +19,7 @@ FLOORS = {
         "T3": 9,
         "T4": 2,
         "F1": 1,
-        "G1": 1,
+        "GS1": 1,
         "T6": 9
     },
     "C04": {
@@ -33,7 +33,7 @@ FLOORS = {
         "S2": 1,
         "T4": 1,
         "F1": 1,
-        "G1": 1
+        "GS1": 1
     },
     "C07": {
         "I1": 6,
@@ -43,7 +43,8 @@ FLOORS = {
         "I5": 3,
         "I10": 1,
         "I11": 2,
-        "I12": 20
+        "I12": 20,
+        "GS1": 1
     },
     "C08": {
         "L1": 1,
@@ -53,7 +54,8 @@ FLOORS = {
         "T4": 2,
         "DL1": 1,
         "L6": 1,
-        "F1": 1
+        "F1": 1,
+        "GS1": 1
     },
     "C09": {
         "E1": 8,
@@ -61,11 +63,13 @@ FLOORS = {
         "T4": 1,
         "DL1": 1,
         "F1": 1,
-        "E7": 1
+        "E7": 1,
+        "GS1": 4
     },
     "C10": {
         "IDX": 4,
-        "V1": 1
+        "V1": 1,
+        "GS1": 1
     },
     "C11": {
         "IDX": 4,
@@ -81,7 +85,7 @@ FLOORS = {
         "B-guard": 20,
         "B-immut": 53,
         "B-single": 38,
-        "G1": 9
+        "GS1": 9
     },
     "C14": {
         "A-exit": 27,
@@ -343,6 +347,8 @@ def c16(prog, rep):
 def c07(prog, rep):
     from . import hasharr as HA
     HA.rule_c07(prog, rep)
+    from .globrules import rule_g1
+    rule_g1(prog, rep, [HA.UNIT])           # state kept outside the region is not seen by a second handle or another process
     HA.rule_i7(prog, rep)
     HA.rule_i8(prog, rep)
     HA.rule_i10(prog, rep)
@@ -457,6 +463,8 @@ def c05(prog, rep):
 def c10(prog, rep):
     from . import index as IX, lockset as L, copy as C
     sm = L.SharedModel(prog)
+    from .globrules import rule_g1
+    rule_g1(prog, rep, ['src/containers/qvector.c'])
     rep.rule('V1', 'element size, growth options and initial capacity are written only by the constructor')
     for fld in ('objsize', 'options', 'initnum'):
         rep.instance('V1')
@@ -540,6 +548,8 @@ def c08(prog, rep):
     from . import listtbl as LT, counts as K, own as O, escape as E
     om = O.OwnModel(prog)
     LT.rule_c08(prog, rep)
+    from .globrules import rule_g1
+    rule_g1(prog, rep, [LT.UNIT])
     K.rule_t4(prog, rep, om, units=[LT.UNIT])
     E.rule_r2(prog, rep, [LT.UNIT])
     E.rule_r2_move(prog, rep, [LT.UNIT])
@@ -572,6 +582,8 @@ def c09(prog, rep):
     from . import listrules as LR, counts as K, own as O, escape as E
     om = O.OwnModel(prog)
     LR.rule_c09(prog, rep)
+    from .globrules import rule_g1
+    rule_g1(prog, rep, ['src/containers/qlist.c', 'src/containers/qqueue.c', 'src/containers/qstack.c', 'src/containers/qgrow.c'])
     K.rule_t4(prog, rep, om, units=[LR.LIST])
     E.rule_r2(prog, rep, [LR.LIST])
     E.rule_r2_fill(prog, rep, [LR.LIST])
